@@ -30,6 +30,12 @@ pub open spec fn piece_str(p: FmtPiece) -> Seq<char> {
 pub open spec fn render(p: Seq<FmtPiece>) -> Seq<char> decreases p.len() {
     if p.len() == 0 { Seq::empty() } else { render(p.drop_last()) + piece_str(p.last()) }
 }
+pub proof fn lemma_render1(p: Seq<FmtPiece>) requires p.len() == 1 ensures render(p) == piece_str(p[0])
+{ reveal_with_fuel(render, 3); assert(render(p) =~= piece_str(p[0])); }
+pub proof fn lemma_render2(p: Seq<FmtPiece>) requires p.len() == 2 ensures render(p) == piece_str(p[0]) + piece_str(p[1])
+{ reveal_with_fuel(render, 4); assert(p.drop_last().len() == 1); assert(p.drop_last()[0] == p[0]); lemma_render1(p.drop_last()); assert(render(p) =~= piece_str(p[0]) + piece_str(p[1])); }
+pub proof fn lemma_render3(p: Seq<FmtPiece>) requires p.len() == 3 ensures render(p) == piece_str(p[0]) + piece_str(p[1]) + piece_str(p[2])
+{ reveal_with_fuel(render, 2); assert(p.drop_last().len() == 2); assert(p.drop_last()[0] == p[0] && p.drop_last()[1] == p[1]); lemma_render2(p.drop_last()); }
 #[verifier::external_body]
 pub fn verif_format(Ghost(p): Ghost<Seq<FmtPiece>>) -> (r: String) ensures r@ == render(p) { unimplemented!() }
 
@@ -69,5 +75,27 @@ pub uninterp spec fn dedup_of<T>(s: Seq<T>) -> Seq<T>;
 pub fn verif_dedup<T: PartialEq>(v: &mut Vec<T>)
     ensures final(v)@ == dedup_of(old(v)@), final(v)@.len() <= old(v)@.len()
 { unimplemented!() }
+
+impl Decimal {
+    /// truncation toward zero: a result within one unit of the value, on its side of zero (integrality is not stated)
+    #[verifier::external_body]
+    pub fn trunc(&self) -> (r: Decimal)
+        ensures (self.v() >= 0real ==> 0real <= r.v() <= self.v() && self.v() - r.v() < 1real), (self.v() <= 0real ==> self.v() <= r.v() <= 0real && r.v() - self.v() < 1real)
+    { unimplemented!() }
+}
+/// R22 `x.split(c)` on a string with a char pattern: the pieces are an uninterpreted function of text and separator; `next()` yields them in order
+pub uninterp spec fn split_pieces(s: Seq<char>, c: char) -> Seq<Seq<char>>;
+#[verifier::external_body]
+pub struct VerifSplit<'a> { _p: core::marker::PhantomData<&'a str> }
+impl<'a> VerifSplit<'a> {
+    pub uninterp spec fn rest(&self) -> Seq<Seq<char>>;
+    #[verifier::external_body]
+    pub fn next(&mut self) -> (r: Option<&'a str>)
+        ensures (match r { Some(x) => old(self).rest().len() > 0 && x@ == old(self).rest()[0] && final(self).rest() == old(self).rest().skip(1),
+                           None => old(self).rest().len() == 0 && final(self).rest() == old(self).rest() })
+    { unimplemented!() }
+}
+#[verifier::external_body]
+pub fn verif_split<'a, S: VerifShow + ?Sized>(s: &'a S, c: char) -> (r: VerifSplit<'a>) ensures r.rest() == split_pieces(s.show(), c) { unimplemented!() }
 
 } // verus!
